@@ -46,11 +46,12 @@ VARIABLES m,        \* working map
           db,       \* set of blobs
           root,     \* root hash (token) of the last commit; <<>> = unspecified (mixed state)
           cm,       \* the map of the last commit
+          cv1,      \* the state version of the last commit
           persisted,\* set of <<root, map>> of every commit since the last pruning commit
           ncommit,
           hist, done
 
-svars == <<m, v1, mixed, db, root, cm, persisted, ncommit, hist, done>>
+svars == <<m, v1, mixed, db, root, cm, cv1, persisted, ncommit, hist, done>>
 
 (* Rows, Has, Fetch, Lookup, LoadEntries, MapKV: pure operators, see TrieCodec. *)
 
@@ -75,13 +76,13 @@ SOps ==
 (* instance opened at the last committed root (uncommitted writes are lost)  *)
 SApply(o) ==
   CASE o.op = "Put" -> /\ m' = SMapPut(m, o.k, o.v)
-                       /\ UNCHANGED <<v1, mixed, db, root, cm, persisted, ncommit>>
+                       /\ UNCHANGED <<v1, mixed, db, root, cm, cv1, persisted, ncommit>>
     [] o.op = "Delete" -> /\ m' = SMapDel(m, o.k)
-                          /\ UNCHANGED <<v1, mixed, db, root, cm, persisted, ncommit>>
+                          /\ UNCHANGED <<v1, mixed, db, root, cm, cv1, persisted, ncommit>>
     [] o.op = "SetVersion" -> /\ v1' = TRUE /\ mixed' = (mixed \/ SHasLong(m))
-                              /\ UNCHANGED <<m, db, root, cm, persisted, ncommit>>
+                              /\ UNCHANGED <<m, db, root, cm, cv1, persisted, ncommit>>
     [] o.op = "Commit" ->
-         /\ cm' = m /\ ncommit' = ncommit + 1
+         /\ cm' = m /\ cv1' = v1 /\ ncommit' = ncommit + 1
          /\ IF mixed
             THEN root' = <<>> /\ UNCHANGED <<db, persisted>>   \* UnspecifiedMigrationRoot, see TrieMachine
             ELSE /\ root' = Root(m, v1)
@@ -89,7 +90,9 @@ SApply(o) ==
                  /\ persisted' = (IF o.prune THEN {} ELSE persisted) \cup {<<Root(m, v1), m>>}
          /\ UNCHANGED <<m, v1, mixed>>
     [] o.op = "Reopen" -> /\ m' = cm
-                          /\ UNCHANGED <<v1, mixed, db, root, cm, persisted, ncommit>>
+                          \* a V0-committed state holding long values, reopened under V1, is a migrating state
+                          /\ mixed' = (mixed \/ (v1 /\ ~cv1 /\ SHasLong(cm)))
+                          /\ UNCHANGED <<v1, db, root, cm, cv1, persisted, ncommit>>
 
 (* observation after the step: the root the working state must hash to (<<>> *)
 (* = not compared), its entries, and the committed state's root and entries   *)
@@ -105,10 +108,10 @@ SStep(o) ==
   /\ UNCHANGED done
 
 SFinish == /\ ~done /\ Len(hist) = StDepth /\ done' = TRUE
-           /\ UNCHANGED <<m, v1, mixed, db, root, cm, persisted, ncommit, hist>>
+           /\ UNCHANGED <<m, v1, mixed, db, root, cm, cv1, persisted, ncommit, hist>>
 
 SInit == /\ m = EmptyMap /\ v1 = StStartV1 /\ mixed = FALSE
-         /\ db = {<<0>>} /\ root = Root(EmptyMap, FALSE) /\ cm = EmptyMap
+         /\ db = {<<0>>} /\ root = Root(EmptyMap, FALSE) /\ cm = EmptyMap /\ cv1 = StStartV1
          /\ persisted = {<<Root(EmptyMap, FALSE), EmptyMap>>}
          /\ ncommit = 0 /\ hist = <<>> /\ done = FALSE
 
@@ -161,5 +164,5 @@ StoredNodesRoundTrip ==
 (* with the same root hold the same map                                    *)
 RootNamesState == \A p, q \in persisted : p[1] = q[1] => MapKV(p[2]) = MapKV(q[2])
 
-SView == <<m, v1, mixed, db, root, cm, persisted, ncommit>>
+SView == <<m, v1, mixed, db, root, cm, cv1, persisted, ncommit>>
 =============================================================================
